@@ -465,6 +465,48 @@ def gw_prestate(m, tables, pa, c, recv):
                         continue
                     pred = T.STATE_PRED.match(r[1]).group(1)
                     pre &= {s for s in T.STATES if tables[pred][s] == g.truth}
+    # disjunctions (`a() || b()`) and merged arms leave no dominating guard: walk from the point where the receiver
+    # is obtained (the element of this iteration / the navigation call) to the site, once per state, deciding every
+    # predicate on the receiver's own state - sound as long as nothing writes the receiver on the way
+    if recv[0] == "call" and not _write_between(m, f, pa, recv[2], c.b, recv):
+        start = recv[2]
+        pre2 = set()
+        for v in T.STATES:
+            seen = set()
+            work = list(f.succ(start))
+            hit = False
+            while work and not hit:
+                x = work.pop()
+                if x in seen:
+                    continue
+                seen.add(x)
+                if x == c.b:
+                    hit = True
+                    break
+                if x == start:
+                    continue  # the next iteration is another element
+                t = f.blocks[x]["t"]
+                if t[0] == "switch":
+                    r = pa.root(f, t[1])
+                    neg = False
+                    while r[0] == "not":
+                        neg = not neg
+                        r = r[1]
+                    if r[0] == "call" and T.STATE_PRED.match(r[1]) and not r[3]:
+                        sr = pa.root(f, Call(f, r[2]).args[0])
+                        if sr[0] == "call" and sr[1] == T.Q_STATE and pa.root(f, Call(f, sr[2]).args[0]) == recv:
+                            val = tables[T.STATE_PRED.match(r[1]).group(1)][v]
+                            val = (not val) if neg else val
+                            tgt = t[3]
+                            for sv, tb in t[2]:
+                                if int(sv) == (1 if val else 0):
+                                    tgt = tb
+                            work.append(tgt)
+                            continue
+                work += f.succ(x)
+            if hit:
+                pre2.add(v)
+        pre &= pre2
     return pre
 
 
